@@ -159,10 +159,12 @@ def run(ctx):
         futs = [ex.submit(bandit.run_job, j) for j in jobs]          # real executions run while TLC model-checks
 
         # ---- M1
-        r = ctx.mc("Bandit_MC", "Bandit_MCq.cfg" if quick else "Bandit_MC.cfg", coverage=False, timeout=3000)
+        # one TLC worker: strict breadth-first order, so that every state is first reached with its smallest operation count
+        # (the view hides the bounded counter `nops`; several workers would cut successors of states found first on longer paths)
+        r = ctx.mc("Bandit_MC", "Bandit_MCq.cfg" if quick else "Bandit_MC.cfg", coverage=False, timeout=3000, workers=1)
         if r.ok and r.distinct < 10000:
             raise Vacuous(f"kernel model explored only {r.distinct} states")
-        ctx.mc("Bandit_MC", "Bandit_MCpq.cfg" if quick else "Bandit_MCp.cfg",
+        ctx.mc("Bandit_MC", "Bandit_MCpq.cfg" if quick else "Bandit_MCp.cfg", workers=1, timeout=3000,
                must_cover=["CreateAny|Create", "DecideAny|Decide", "LearnAny|Learn", "MutateAny|Mutate", "CloneAny|Clone", "SaveAny|Save",
                            "LoadNewAny|LoadNew", "LoadIntoAny|LoadInto"])
         results = [f.result() for f in futs]
